@@ -260,6 +260,12 @@ def PS.curIs (s : PS) (t : TT) : Bool :=
   | some c => c.type == t
   | none => false
 
+/-- `self.current_token and self.current_token.aliased` -/
+def PS.curAliased (s : PS) : Bool :=
+  match s.cur with
+  | some c => c.aliased
+  | none => false
+
 def PS.ruleByName (s : PS) (n : String) : Option Rule := s.rules.find? (·.name == n)
 
 /-- the second half of `_consume`: step to the next token, splicing in the alias's tokens when
@@ -542,57 +548,90 @@ def PS.budget (s : PS) : Nat :=
   let longest := (s.aliases.map (·.2.length)).foldl max 1
   4 * ((s.rest.length + 2) * (longest + 1)) + 8
 
-/-- `_parse_rule` (without the multipliers, applied by the caller) -/
-def parseRule (cfg : Cfg) (s : PS) : Except Err (Rule × PS) := do
-  let fuel := s.budget
+/-- `extenders and not extenders.contains_positive_condition()` -/
+def extendersNegative : Option Cond → Bool
+  | some e => !positive e
+  | none => false
+
+/-- `_parse_rule`, first part: `RULE name CATEGORY category` -/
+def parseHead (cfg : Cfg) (s : PS) : Except Err ((String × String) × PS) := do
   let (_, s) ← consume .rule s
-  if (match s.cur with | some c => c.aliased | none => false) then .error .syntax else
+  if s.curAliased then .error .syntax else
   let (name, s) ← consumeId s
   if s.cur.isNone then .error .syntax else
   let (_, s) ← consume .category s
   let (category, s) ← consumeId s
   if !cfg.cats.contains category then .error .syntax else
   if s.cur.isNone then .error .syntax else
+  pure ((name, category), s)
+
+/-- the optional `RELATED` section -/
+def parseRelated (fuel : Nat) (s : PS) : Except Err (List String × PS) :=
+  if s.curIs .related then do
+    let (_, s) ← consume .related s
+    parseIds fuel s
+  else pure ([], s)
+
+/-- `_parse_rule`, second part: DESCRIPTION, EXAMPLEs, RELATED, SUPERIORS (all optional) -/
+def parseMeta (fuel : Nat) (s : PS) :
+    Except Err ((List String × List Example × List String × List String) × PS) := do
   let (description, s) ← (if s.curIs .description then parseDescription s else pure ([], s)
     : Except Err (List String × PS))
   let (examples, s) ← examplesLoop fuel [] s
-  let (related, s) ← (if s.curIs .related then do
-      let (_, s) ← consume .related s
-      parseIds fuel s
-    else pure ([], s) : Except Err (List String × PS))
+  let (related, s) ← parseRelated fuel s
   if s.cur.isNone then .error .syntax else
   let (superiors, s) ← (if s.curIs .superiors then parseSuperiors fuel s else pure ([], s)
     : Except Err (List String × PS))
+  pure ((description, examples, related, superiors), s)
+
+/-- `CUTOFF n NEIGHBOURHOOD m` (kilobases) -/
+def parseDistances (s : PS) : Except Err ((Nat × Nat) × PS) := do
   let (_, s) ← consume .cutoff s
   let (cutoff, s) ← consumeInt s
   let (_, s) ← consume .neighbourhood s
   let (neighbourhood, s) ← consumeInt s
-  let (_, s) ← consume .conditions s
-  let (subs, s) ← parseConditions fuel true false s
-  let conditions ← mkGroup false subs
-  let (extenders, s) ← (if s.curIs .extenders then do
-      let (_, s) ← consume .extenders s
-      match s.cur with
-      | none => .error .syntax
-      | some c =>
-        if c.type == .cds then do
-          let (body, s) ← parseCds fuel s
-          let e ← mkCds false body
-          pure (some e, s)
-        else if c.type == .identifier then do
-          let (e, s) ← parseSingle fuel false s
-          match s.cur with
-          | some c' => if c'.type != .rule && c'.type != .define then .error .syntax else pure (some e, s)
-          | none => pure (some e, s)
-        else .error .syntax
-    else pure (none, s) : Except Err (Option Cond × PS))
+  pure ((cutoff * 1000, neighbourhood * 1000), s)
+
+/-- the optional `EXTENDERS` section -/
+def parseExtenders (fuel : Nat) (s : PS) : Except Err (Option Cond × PS) :=
+  if s.curIs .extenders then do
+    let (_, s) ← consume .extenders s
+    match s.cur with
+    | none => .error .syntax
+    | some c =>
+      if c.type == .cds then do
+        let (body, s) ← parseCds fuel s
+        let e ← mkCds false body
+        pure (some e, s)
+      else if c.type == .identifier then do
+        let (e, s) ← parseSingle fuel false s
+        match s.cur with
+        | some c' => if c'.type != .rule && c'.type != .define then .error .syntax else pure (some e, s)
+        | none => pure (some e, s)
+      else .error .syntax
+  else pure (none, s)
+
+/-- the rule must end where the next `RULE`/`DEFINE` starts -/
+def ruleEnd (s : PS) : Except Err Unit :=
   match s.cur with
   | some c => if c.type != .rule && c.type != .define then .error .syntax else pure ()
   | none => pure ()
+
+/-- `_parse_rule` (without the multipliers, applied by the caller) -/
+def parseRule (cfg : Cfg) (s : PS) : Except Err (Rule × PS) := do
+  let fuel := s.budget
+  let ((name, category), s) ← parseHead cfg s
+  let ((description, examples, related, superiors), s) ← parseMeta fuel s
+  let ((cutoff, neighbourhood), s) ← parseDistances s
+  let (_, s) ← consume .conditions s
+  let (subs, s) ← parseConditions fuel true false s
+  let conditions ← mkGroup false subs
+  let (extenders, s) ← parseExtenders fuel s
+  ruleEnd s
   -- DetectionRule.__init__
   if !positive conditions then .error .value else
-  if (match extenders with | some e => !positive e | none => false) then .error .value else
-  pure ({ name, category, cutoff := cutoff * 1000, neighbourhood := neighbourhood * 1000, conditions,
+  if extendersNegative extenders then .error .value else
+  pure ({ name, category, cutoff, neighbourhood, conditions,
           description, examples, superiors, related, extenders }, s)
 
 /-- the `while` loop of `_parse_alias` -/
@@ -613,7 +652,7 @@ def aliasLoop : Nat → List Tok → PS → Except Err (List Tok × PS)
 def parseAlias (s : PS) : Except Err ((String × List Tok) × PS) := do
   let fuel := s.budget
   let (_, s) ← consume .define s
-  if (match s.cur with | some c => c.aliased | none => false) then .error .syntax else
+  if s.curAliased then .error .syntax else
   let (name, s) ← consumeId s
   let (_, s) ← consume .asKw s
   let (toks, s) ← aliasLoop fuel [] s
